@@ -105,7 +105,7 @@ class C14(PropBase):
                     cases.append(self._mk(rng, op, g))
         while len(cases) < n or (shard == 0 and len(cases) < n):
             cyc = rng.random() < 0.3
-            g = GG.rand_admg(rng, 2, nmax, cyclic=cyc)
+            g = GG.rand_admg_big(rng, cyclic=cyc) if rng.random() < 0.04 else GG.rand_admg(rng, 2, nmax, cyclic=cyc)
             cases.append(self._mk(rng, rng.choice(OPS), g))
             if len(cases) >= n:
                 break
